@@ -45,15 +45,14 @@ theorem update_complete (g : Graph) (s : St) (x : Name) (t : Target) (rid : Nat)
   unfold update
   have hne : news.isEmpty = false := by cases news <;> simp_all
   simp only [Bool.not_true, Bool.false_eq_true, if_false, hne]
-  have hmem : d ∈ fedBack g news ++ dependents g x news := by
-    rw [List.mem_append]; exact hd.symm
+  have hmem : d ∈ updNames g x news := mem_updNames.2 hd.symm
   generalize hsc : complete { s with inflight := s.inflight.erase (x, t) } x t .success rid = sc
   have htg : sc.targets = s.targets := by rw [← hsc]; rfl
   have hspec := (orgFold_spec g sc.targets [t]
     (if (fedBack g news).isEmpty then some rid else none)
-    (fedBack g news ++ dependents g x news) sc.node d).2.2.2.1
+    (updNames g x news) sc.node d).2.2.2.1
   have h1 : ∀ u ∈ affected g s t d,
-      u ∈ ((organize g sc (fedBack g news ++ dependents g x news)
+      u ∈ ((organize g sc (updNames g x news)
         (if (fedBack g news).isEmpty then some rid else none) [t]).node d).todo := by
     intro u hu
     rw [organize_node, hspec u]
@@ -89,11 +88,11 @@ theorem update_minimal (g : Graph) (s : St) (x : Name) (t : Target) (rid : Nat)
       simp at hnew
       exact absurd hnew hold
     · rw [organize_node] at hnew
-      have := (orgFold_spec g sc.targets [t] (if (fedBack g news).isEmpty then some rid else none) (fedBack g news ++ dependents g x news) sc.node n).2.2.2.1 u
+      have := (orgFold_spec g sc.targets [t] (if (fedBack g news).isEmpty then some rid else none) (updNames g x news) sc.node n).2.2.2.1 u
       rw [this, hct] at hnew
       rcases hnew with c | c
       · exact absurd c hold
-      · have := c.1; rw [List.mem_append] at this; exact this.symm
+      · exact (mem_updNames.1 c.1).symm
 
 /-- Every growth of anybody's pending work in any step has one of the three causes the property
     allows: an explicit request / version change (`organize` naming it), a timer event naming it,
